@@ -25,8 +25,23 @@
       (`max_depth_on_scheduled_circuit`), the literal recursion terminating with the model's fuel;
     * hence `CircuitMaxEmitResetDepth` and `CircuitMaxEmitEffDepth` equal their op-list definitions
       (`emitter_reset_and_effective_depth_eq_spec`; no `_statement` is left unproved in this file).
+  §6–§7, for EVERY circuit satisfying DagInv, hence for every circuit reachable by any edit history (not only `add`):
+    * every topological order of the circuit is a schedule (operations as wired: `insert_at` does not thread classical registers)
+      and one exists (`every_topological_order_is_a_schedule`, `every_circuit_has_a_schedule`);
+    * all metrics equal their specification on the operation list of ANY schedule (`metrics_eq_spec_on_any_schedule`,
+      `metrics_eq_spec_in_any_topological_order`), the specification not depending on the schedule;
+    * `metrics_after_history`: after any history over the whole edit API from `CircuitDAG(ne,np,nc)` (graphiq-constructed
+      operation arguments) — the `add`-built theorems are the special case `built_circuit_meets_spec`.
 -/
-import GraphiqModel.Proofs.PrepDepth
+import GraphiqModel.Proofs.MetricsHistCheck
+import GraphiqModel.Proofs.MetricsHistLongest
+import GraphiqModel.Proofs.MetricsHistChain
+import GraphiqModel.Proofs.MetricsHistIso
+import GraphiqModel.Proofs.MetricsHistEdits
+import GraphiqModel.Proofs.MetricsHistInsert
+import GraphiqModel.Proofs.MetricsHistFuse
+import GraphiqModel.Proofs.MetricsHistEmit
+import GraphiqModel.Properties.C12
 namespace Graphiq.C18
 open Graphiq Graphiq.Dag Graphiq.Metrics
 
@@ -47,6 +62,13 @@ theorem get_node_by_labels_count {c : Dag} (h : DagInv c) (labels : List String)
     (c.getNodeByLabels labels).length = (opsOf c).countP (fun op => labels.all (fun l => op.indexKeys.contains l)) :=
   length_getNodeByLabels_ops h labels hin hout
 
+/-- **`get_node_exclude_labels(labels)` = filter by predicate**: on every circuit satisfying DagInv the returned list has no
+    duplicates and contains exactly the nodes none of whose keys is one of the labels -/
+theorem get_node_exclude_labels_is_filter {c : Dag} (h : DagInv c) (labels : List String) :
+    (c.getNodeExcludeLabels labels).Nodup ∧
+    ∀ n, n ∈ c.getNodeExcludeLabels labels ↔ n ∈ c.nodeIds ∧ ∀ l ∈ labels, l ∉ c.keysAt n :=
+  ⟨(getNodeExcludeLabels_spec h labels (.op 0)).2, fun n => (getNodeExcludeLabels_spec h labels n).1⟩
+
 /-! ## 2. counting metrics -/
 
 /-- `CircuitEmitterCount` = the number of emitter input nodes of the graph -/
@@ -55,8 +77,21 @@ theorem emitter_count_eq_inputs {c : Dag} (h : DagInv c) :
   obtain ⟨P, g⟩ := h
   exact (g.inv.input_count .e).symm
 
-/-- hypotheses on an operation list: well-formed operations as graphiq constructs them (no user labels, at most two
-    quantum registers, wrappers wrap base gate classes) -/
+/-- **`CircuitEmitterCount` = the op-list specification** for every circuit built by `add`: the number of emitter registers of
+    `CircuitDAG(ne, np, nc)` after adding the list, an emitter register being created exactly when an operation names the next free
+    index (continuous numbering, registers of an operation visited in the sorted order of the code) -/
+theorem emitter_count_eq_spec (ne np nc : Nat) (seq : List Op) (hwf : ∀ op ∈ seq, OpWF op) (hok : (build ne np nc seq).2 = none) :
+    Metrics.emitterCount (build ne np nc seq).1 = Spec.emitterCount ne seq :=
+  emitterCount_build ne np nc seq hwf hok
+
+/-- `CircuitDAG(ne, np, nc)` has exactly `ne`, `np`, `nc` registers of the three types -/
+theorem fresh_circuit_register_counts (ne np nc : Nat) :
+    (Dag.init ne np nc).regs .e = ne ∧ (Dag.init ne np nc).regs .p = np ∧ (Dag.init ne np nc).regs .c = nc :=
+  init_regs ne np nc
+
+/-- hypotheses on an operation list: well-formed operations as graphiq constructs them (labels — including user labels such as
+    the solver's "Fixed" — outside the reserved names, i.e. class names and register-type descriptions; at most two quantum
+    registers; wrappers wrap base gate classes) -/
 def PlainSeq (seq : List Op) : Prop := ∀ op ∈ seq, OpWF op ∧ PlainOp' op
 
 /-- **`CircuitCnotCount` = number of CNOTs between two emitters in the operation list**, for every circuit built by
@@ -190,7 +225,7 @@ theorem prepared_copy_has_schedule (ne np nc : Nat) (seq : List Op) (hseq : Plai
       prep (build ne np nc seq).1 = .ok c' ∧ Good c' P' ∧ L'.map (·.2) = Spec.unwrapSeq seq ∧
       (∀ r, r.idx < c'.regs r.ty → c'.regGateHistory r = .ok (P' r) ∧
         P' r = .inp r :: ((L'.filter (fun p => decide (r ∈ opRegs p.2))).map (·.1) ++ [.out r])) ∧
-      (∀ p, p ∈ L' ↔ (∃ i, p.1 = NodeId.op i) ∧ p ∈ c'.nodes) ∧ (L'.map (·.1)).Nodup := by
+      (∀ p, p ∈ L' ↔ (∃ i, p.1 = NodeId.op i) ∧ ∃ o, (p.1, o) ∈ c'.nodes ∧ p.2 = wiredOp P' p.1 o) ∧ (L'.map (·.1)).Nodup := by
   obtain ⟨c', P', L', hprep, g', hS', hL', _⟩ := prep_sched ne np nc seq hseq hok
   exact ⟨c', P', L', hprep, g', hL', fun r hl => ⟨regGateHistory_eq_wire g'.inv hl, hS'.wire r hl⟩, hS'.nodes, hS'.nodup⟩
 
@@ -209,8 +244,8 @@ theorem max_depth_on_scheduled_circuit {c : Dag} {P : Reg → List NodeId} {L : 
   constructor
   · intro pre p suf hL
     have hr : ∃ r, r ∈ opRegs p.2 := by
-      obtain ⟨i, _, hm⟩ := hS.op_node (show p ∈ L by rw [hL]; simp)
-      have := (g.inv.op_wf i p.2 hm).qregs_ne
+      obtain ⟨i, o, _, hm, hpo⟩ := hS.op_node (show p ∈ L by rw [hL]; simp)
+      have := (hpo ▸ wiredOp_wf (g.inv.op_wf i o hm) : OpWF p.2).qregs_ne
       cases hq : p.2.qregs with
       | nil => exact absurd hq this
       | cons a t => exact ⟨a, by simp [opRegs, hq]⟩
@@ -256,7 +291,483 @@ theorem emitter_reset_and_effective_depth_eq_spec : emitter_reset_and_effective_
   fun ne np nc seq hseq hok =>
     ⟨max_emitter_reset_depth_eq_spec ne np nc seq hseq hok, max_emitter_effective_depth_eq_spec ne np nc seq hseq hok⟩
 
-/-! ## 6. non-vacuity -/
+
+/-! ## 6. every circuit satisfying DagInv — hence every circuit reachable by an edit history
+
+  The theorems of §2–§5 are stated for `build ne np nc seq`.  Here the same equalities are proved for ANY circuit `c` that
+  satisfies DagInv with wires `P` (`Good c P`) and holds plain operations, with "the circuit's operation list" being the
+  operation list of any *schedule* `L` of the circuit (`Sched c P L`, Proofs/PrepDepthStatic.lean): all operation nodes, each
+  once, each with its operation *as wired* (`wiredOp`: only the classical registers on whose wire the node is threaded — `add`
+  threads all `c_registers`, `insert_at` by design none), in an order such that every wire is `in, (the scheduled nodes on the
+  register, in schedule order), out`.  Every topological order of the graph — what `sequence()` returns — is a schedule, and
+  one exists; so the specification on a general circuit is "`Spec.*` of the operations in any topological order". -/
+
+/-- **the wired operation of a node acts on exactly the registers whose wire contains the node** — so the dependencies the
+    specification sees are exactly the dependencies the graph holds -/
+theorem wired_operation_registers {c : Dag} {P : Reg → List NodeId} (g : Good c P) {i : Nat} {o : Op}
+    (hm : (NodeId.op i, o) ∈ c.nodes) (r : Reg) : r ∈ opRegs (wiredOp P (.op i) o) ↔ NodeId.op i ∈ P r :=
+  mem_opRegs_wiredOp g hm r
+
+/-- an operation threaded on all its classical registers (every operation put in by `add`) is its own wired form -/
+theorem wired_operation_of_add {P : Reg → List NodeId} {n : NodeId} {o : Op} (h : ∀ j ∈ o.cregs, n ∈ P ⟨.c, j⟩) :
+    wiredOp P n o = o := wiredOp_eq_self h
+
+/-- **every topological order is a schedule.**  For a circuit satisfying DagInv and any position function that increases
+    along every edge and is injective on the nodes (the recorded contract of `nx.topological_sort`), the operation nodes
+    sorted by position, with their wired operations, form a schedule. -/
+theorem every_topological_order_is_a_schedule {c : Dag} {P : Reg → List NodeId} (g : Good c P) {pos : NodeId → Nat}
+    (hlin : LinearExt c pos) (hinj : ∀ a ∈ c.nodeIds, ∀ b ∈ c.nodeIds, pos a = pos b → a = b) :
+    Sched c P (schedOf c P pos) := schedOf_sched g hlin hinj
+
+/-- **every circuit satisfying DagInv has a schedule** (no hypothesis: a topological order exists by acyclicity) — so
+    `max_depth_on_scheduled_circuit` applies to every such circuit -/
+theorem every_circuit_has_a_schedule {c : Dag} {P : Reg → List NodeId} (g : Good c P) : ∃ L, Sched c P L := sched_exists g
+
+/-- all metrics of `c` equal their op-list specifications on the operation list `ops` -/
+structure MetricsMeetSpec (c : Dag) (ops : List Op) : Prop where
+  emitters : Metrics.emitterCount c = (c.nodeIds.filter (fun n => match n with | .inp r => r.ty = .e | _ => false)).length
+  cnot : Metrics.cnotCount c = Spec.cnotCount ops
+  measure : Metrics.measureCount c = Spec.measureCount ops
+  unitary : Metrics.unitaryCount c = .ok (Spec.unitaryCount ops)
+  register_depth : ∀ t, c.calculateRegDepth t = .ok ((List.range (c.regs t)).map (fun i => (Spec.regDepth ops ⟨t, i⟩ : Int)))
+  depth : c.nodeIds ≠ [] → ∀ Lp, LongestPathSpec c Lp → Metrics.circuitDepthWith Lp = (Spec.depth ops : Int)
+  depth_model : c.nodeIds ≠ [] → Metrics.circuitDepth c = (Spec.depth ops : Int)
+  max_emitter_depth : Metrics.maxEmitDepth c = Spec.maxEmitDepth c.nE ops
+  reset_depth : Metrics.maxEmitResetDepth c = Spec.maxEmitResetDepth c.nE ops
+  effective_depth : Metrics.maxEmitEffDepth c = Spec.maxEmitEffDepth c.nE ops
+
+/-- **Metric theorem for every circuit satisfying DagInv.**  Let `c` satisfy DagInv with wires `P`, hold plain operations,
+    and let `L` be any schedule of it.  Then every metric as coded — the label-index counts, `CircuitUnitaryCount` and the three
+    emitter metrics on the copy `unwrap_nodes(); remove_identity()` (both calls succeed), `register_depth` and the effective
+    depth through the literal un-memoised `_max_depth` recursion with the model's fuel, `CircuitDepth` under the recorded
+    specification of `nx.dag_longest_path_length` — equals its definitional specification on the operation list
+    `L.map snd`.  No reference to how the circuit was made. -/
+theorem metrics_eq_spec_on_any_schedule {c : Dag} {P : Reg → List NodeId} {L : List (NodeId × Op)} (g : Good c P)
+    (hpl : AllPlain c) (hS : Sched c P L) : MetricsMeetSpec c (L.map (·.2)) :=
+  { emitters := emitter_count_eq_inputs ⟨_, g⟩
+    cnot := cnotCount_eq_spec_sched g hpl hS
+    measure := measureCount_eq_spec_sched g hpl hS
+    unitary := unitaryCount_eq_spec_sched g hpl hS
+    register_depth := calculateRegDepth_eq_spec_sched g hpl hS
+    depth := fun hne _ hLp => circuitDepth_eq_spec_sched g hpl hS hne hLp
+    depth_model := fun hne => circuitDepth_model_eq_spec g hpl hS hne
+    max_emitter_depth := maxEmitDepth_eq_spec_sched g hpl hS
+    reset_depth := maxEmitResetDepth_eq_spec_sched g hpl hS
+    effective_depth := maxEmitEffDepth_eq_spec_sched g hpl hS }
+
+/-- **the model's own longest-path computation meets the recorded networkx specification** (`Dag.longestPathLen`, the memoised
+    depth-first evaluation the driver uses for `depth`): some directed walk has that many edges and none has more — on every
+    circuit satisfying DagInv with plain operations.  So `Metrics.circuitDepth` — the value compared with the implementation's
+    `CircuitDepth` on every input — equals `Spec.depth` of any schedule (`MetricsMeetSpec.depth_model`): for the model's instance
+    no hypothesis about networkx is left. -/
+theorem model_longest_path_meets_nx_spec {c : Dag} {P : Reg → List NodeId} (g : Good c P) (hpl : AllPlain c) :
+    LongestPathSpec c c.longestPathLen := longestPathLen_spec g hpl
+
+/-- every node of such a circuit has a `_max_depth` value, and the literal un-memoised recursion returns it with the model's fuel
+    (`len(nodes) + 1`) — termination of `_max_depth` on every reachable circuit -/
+theorem max_depth_terminates_on_every_node {c : Dag} {P : Reg → List NodeId} (g : Good c P) (hpl : AllPlain c) :
+    ∀ n ∈ c.nodeIds, ∃ d : Int, c.maxDepth (c.nodes.length + 1) n = .ok d := by
+  intro n hn
+  obtain ⟨d, hd, hb⟩ := all_hasDepth g hpl n hn
+  exact ⟨d, maxDepth_of_hasDepth hd _ (by push_cast; omega)⟩
+
+/-- **the depth metrics need no assumption on labels beyond "no operation is filed under `Input`"** (`NoInputKey`): on every circuit
+    satisfying DagInv — by C12 `history_from_init` every circuit reachable by well-formed edits, whatever user labels its operations
+    carry, e.g. the solver's "Fixed" — with that property, `register_depth` (literal `_max_depth`), `CircuitDepth` under the recorded
+    networkx specification and with the model's own longest-path computation equal the specifications on any schedule, and the
+    model's longest-path computation meets the networkx specification -/
+theorem depth_metrics_with_user_labels {c : Dag} {P : Reg → List NodeId} {L : List (NodeId × Op)} (g : Good c P)
+    (hk : NoInputKey c) (hS : Sched c P L) :
+    (∀ t, c.calculateRegDepth t = .ok ((List.range (c.regs t)).map (fun i => (Spec.regDepth (L.map (·.2)) ⟨t, i⟩ : Int)))) ∧
+    (c.nodeIds ≠ [] → ∀ Lp, LongestPathSpec c Lp → Metrics.circuitDepthWith Lp = (Spec.depth (L.map (·.2)) : Int)) ∧
+    (c.nodeIds ≠ [] → Metrics.circuitDepth c = (Spec.depth (L.map (·.2)) : Int)) ∧
+    LongestPathSpec c c.longestPathLen :=
+  ⟨calculateRegDepth_eq_spec_sched_of g hk hS, fun hne _ hLp => circuitDepth_eq_spec_sched_of g hk hS hne hLp,
+    fun hne => circuitDepth_model_eq_spec_of g hk hS hne, longestPathLen_spec_of g hk⟩
+
+/-- **the two label-index counts need only that no operation carries one of the queried names as a label** (`CountOK`): on every
+    circuit satisfying DagInv with that property — arbitrary other user labels — `CircuitCnotCount` and `CircuitMeasureCount` equal
+    the counts on the operation list of any schedule -/
+theorem counts_with_user_labels {c : Dag} {P : Reg → List NodeId} {L : List (NodeId × Op)} (g : Good c P) (hc : CountOK c)
+    (hS : Sched c P L) :
+    Metrics.cnotCount c = Spec.cnotCount (L.map (·.2)) ∧ Metrics.measureCount c = Spec.measureCount (L.map (·.2)) :=
+  ⟨cnotCount_eq_spec_sched_of g hc hS, measureCount_eq_spec_sched_of g hc hS⟩
+
+/-- a decidable sufficient condition for `NoInputKey` -/
+theorem noInputKey_of_check {c : Dag}
+    (h : c.nodes.all (fun p => match p.1 with | .op _ => !p.2.indexKeys.contains "Input" | _ => true) = true) : NoInputKey c := by
+  intro i o hm hin
+  have := List.all_eq_true.mp h (.op i, o) hm
+  simp [hin] at this
+
+/-- … in particular with the operations in ANY topological order (what `sequence()` hands to the compilers) -/
+theorem metrics_eq_spec_in_any_topological_order {c : Dag} {P : Reg → List NodeId} (g : Good c P) (hpl : AllPlain c)
+    {pos : NodeId → Nat} (hlin : LinearExt c pos) (hinj : ∀ a ∈ c.nodeIds, ∀ b ∈ c.nodeIds, pos a = pos b → a = b) :
+    MetricsMeetSpec c ((schedOf c P pos).map (·.2)) :=
+  metrics_eq_spec_on_any_schedule g hpl (schedOf_sched g hlin hinj)
+
+/-- the specification does not depend on the schedule chosen: any two schedules of the same circuit give the same value
+    of every specification (shown for the counts and the register depths; each equals the metric) -/
+theorem spec_independent_of_schedule {c : Dag} {P : Reg → List NodeId} {L L' : List (NodeId × Op)} (g : Good c P)
+    (hpl : AllPlain c) (hS : Sched c P L) (hS' : Sched c P L') :
+    Spec.cnotCount (L.map (·.2)) = Spec.cnotCount (L'.map (·.2)) ∧
+    Spec.unitaryCount (L.map (·.2)) = Spec.unitaryCount (L'.map (·.2)) ∧
+    (∀ r, c.live r → Spec.regDepth (L.map (·.2)) r = Spec.regDepth (L'.map (·.2)) r) ∧
+    Spec.maxEmitEffDepth c.nE (L.map (·.2)) = Spec.maxEmitEffDepth c.nE (L'.map (·.2)) := by
+  have m := metrics_eq_spec_on_any_schedule g hpl hS
+  have m' := metrics_eq_spec_on_any_schedule g hpl hS'
+  refine ⟨m.cnot.symm.trans m'.cnot, ?_, ?_, m.effective_depth.symm.trans m'.effective_depth⟩
+  · have := m.unitary.symm.trans m'.unitary
+    injection this
+  · intro r hl
+    have h1 := (sched_depth g hS (hS.input_not_key g hpl)).2 r hl
+    have h2 := (sched_depth g hS' (hS'.input_not_key g hpl)).2 r hl
+    exact_mod_cast h1.unique h2
+
+/-- **the specification as a function of the circuit's wires.**  `wireOpList c` is computed from what `reg_gate_history` returns
+    for every register and from the node operations alone: the operation nodes in the canonical topological order (number of proper
+    ancestors by the model's breadth-first `ancestors`, then index), each with its operation as wired.  On every circuit satisfying
+    DagInv with plain operations all metrics equal their specifications on this list. -/
+theorem metrics_eq_spec_of_wires {c : Dag} {P : Reg → List NodeId} (g : Good c P) (hpl : AllPlain c) :
+    MetricsMeetSpec c (wireOpList c) :=
+  metrics_eq_spec_on_any_schedule g hpl (compSched_sched g)
+
+/-- the canonical schedule is a schedule (so the list above is a topological order of the circuit's operations) -/
+theorem canonical_schedule_is_schedule {c : Dag} {P : Reg → List NodeId} (g : Good c P) : Sched c P (compSched c) :=
+  compSched_sched g
+
+/-! ### the edits act on the specification's operation list as list edits
+
+  append (`add`), erase (`remove_op`), replace in place (`replace_op`), flatMap-unwrap (`unwrap_nodes`), filter (`remove_identity`):
+  for each, all metrics of the circuit after the edit equal the specifications on the edited operation list of ANY schedule of the
+  circuit before.  (`insert_at` inserts the operation at a position compatible with the chosen edges, and `group_one_qubit_gates`
+  fuses runs per wire — C12 §7; for those two the operation list after the edit is that of any schedule of the result.) -/
+
+/-- plainness of the circuit from plainness of the scheduled operations -/
+theorem allPlain_of_schedule {c : Dag} {P : Reg → List NodeId} {L : List (NodeId × Op)} (hS : Sched c P L)
+    (h : ∀ o ∈ L.map (·.2), PlainOp' o) : AllPlain c := by
+  intro i o hm
+  exact plainOp'_of_wiredOp (h _ (List.mem_map.mpr ⟨_, hS.mem_of_node hm, rfl⟩))
+
+/-- **`add(op)` = append**: when the call succeeds, all metrics afterwards equal the specifications on `ops ++ [op]` -/
+theorem metrics_after_add {c : Dag} {P : Reg → List NodeId} {L : List (NodeId × Op)} (g : Good c P) (hpl : AllPlain c)
+    (hS : Sched c P L) {op : Op} (hop : OpWF op) (hp : PlainOp' op) (hok : (c.add op).2 = none) :
+    MetricsMeetSpec (c.add op).1 (L.map (·.2) ++ [op]) := by
+  obtain ⟨P', g', hS'⟩ := add_sched_gen g hS hop hok
+  have hpl' : AllPlain (c.add op).1 := by
+    apply allPlain_of_schedule hS'
+    intro o ho
+    rw [List.map_append] at ho
+    rcases List.mem_append.mp ho with ho | ho
+    · exact (hS.wf_plain g hpl o ho).2
+    · simp at ho; rw [ho]; exact hp
+  have := metrics_eq_spec_on_any_schedule g' hpl' hS'
+  simpa using this
+
+/-- **`remove_op(node)` = erase**: the node's entry is removed from the operation list -/
+theorem metrics_after_remove_op {c : Dag} {P : Reg → List NodeId} {L : List (NodeId × Op)} (g : Good c P) (hpl : AllPlain c)
+    (hS : Sched c P L) {i : Nat} {w : Op} (hw : (NodeId.op i, w) ∈ c.nodes) :
+    ∃ L1 L2, L = L1 ++ (NodeId.op i, wiredOp P (.op i) w) :: L2 ∧
+      MetricsMeetSpec (c.removeOp (.op i)).1 (L1.map (·.2) ++ L2.map (·.2)) := by
+  obtain ⟨L1, L2, hL, g', hS'⟩ := removeOp_sched_gen g hS hw
+  refine ⟨L1, L2, hL, ?_⟩
+  have hpl' : AllPlain (c.removeOp (.op i)).1 := by
+    apply allPlain_of_schedule hS'
+    intro o ho
+    apply (hS.wf_plain g hpl o _).2
+    rw [hL]
+    rw [List.map_append] at ho ⊢
+    rcases List.mem_append.mp ho with ho | ho
+    · exact List.mem_append.mpr (Or.inl ho)
+    · exact List.mem_append.mpr (Or.inr (List.mem_cons_of_mem _ ho))
+  have := metrics_eq_spec_on_any_schedule g' hpl' hS'
+  simpa using this
+
+/-- **`replace_op(node, new)` = replace in place** (successful call: same quantum and classical registers): the entry of the node
+    now holds `new` as wired, everything else is unchanged -/
+theorem metrics_after_replace_op {c : Dag} {P : Reg → List NodeId} {L : List (NodeId × Op)} (g : Good c P) (hpl : AllPlain c)
+    (hS : Sched c P L) {i : Nat} {old new : Op} (hold : (NodeId.op i, old) ∈ c.nodes) (hnew : OpWF new) (hp : PlainOp' new)
+    (hq : old.qregs = new.qregs) (hc : old.cregs = new.cregs) :
+    (c.replaceOp (.op i) new).2 = none ∧
+    MetricsMeetSpec (c.replaceOp (.op i) new).1
+      (L.map (fun p => if p.1 = NodeId.op i then wiredOp P (.op i) new else p.2)) := by
+  have heq := replaceOp_eq ((opOf_eq_some g.inv.ids_nodup).mpr hold) hq hc
+  rw [heq]
+  refine ⟨rfl, ?_⟩
+  obtain ⟨g', hS'⟩ := replaceOp_sched_gen g hS hold hnew hq hc
+  have hmap : (L.map (fun p => if p.1 = NodeId.op i then (NodeId.op i, wiredOp P (.op i) new) else p)).map (·.2) =
+      L.map (fun p => if p.1 = NodeId.op i then wiredOp P (.op i) new else p.2) := by
+    rw [List.map_map]
+    apply List.map_congr_left
+    intro p _
+    simp only [Function.comp]
+    by_cases h : p.1 = NodeId.op i <;> simp [h]
+  have hpl' : AllPlain (c.replaced (.op i) old new) := by
+    apply allPlain_of_schedule hS'
+    intro o ho
+    rw [hmap] at ho
+    obtain ⟨p, hpL, rfl⟩ := List.mem_map.mp ho
+    by_cases h : p.1 = NodeId.op i
+    · rw [if_pos h]; exact plainOp'_wiredOp hp
+    · rw [if_neg h]; exact (hS.wf_plain g hpl p.2 (List.mem_map.mpr ⟨p, hpL, rfl⟩)).2
+  have := metrics_eq_spec_on_any_schedule g' hpl' hS'
+  rwa [hmap] at this
+
+/-- **`insert_at(op, edges)` = insert into the operation list**: when the call succeeds (well-formed edges), there are operation
+    lists `A`, `B` such that `A ++ B` is the operation list of a schedule of the circuit before, and all metrics afterwards equal the
+    specifications on `A ++ [op on its quantum registers] ++ B` — `insert_at` threads the new node on the quantum wires of the given
+    edges only, so its `c_registers` create no dependency (`quantumPart`) -/
+theorem metrics_after_insert_at {c : Dag} {P : Reg → List NodeId} (g : Good c P) (hpl : AllPlain c) {op : Op} (hop : OpWF op)
+    (hp : PlainOp' op) {es : List Edge} (hok : InsertOK c op es) (hsucc : (c.insertAt op es).2 = none) :
+    ∃ (A B : List Op) (L : List (NodeId × Op)), Sched c P L ∧ L.map (·.2) = A ++ B ∧
+      MetricsMeetSpec (c.insertAt op es).1 (A ++ quantumPart op :: B) := by
+  obtain ⟨P', A, B, L, n, g', hS', hS, hmap⟩ := insertAt_sched_gen g hop hok hsucc
+  refine ⟨A.map (·.2), B.map (·.2), L, hS, hmap, ?_⟩
+  have hLpl := hS.wf_plain g hpl
+  have hpl' : AllPlain (c.insertAt op es).1 := by
+    apply allPlain_of_schedule hS'
+    intro o ho
+    rw [List.map_append, List.map_cons] at ho
+    rcases List.mem_append.mp ho with ho | ho
+    · exact (hLpl o (by rw [hmap]; exact List.mem_append.mpr (Or.inl ho))).2
+    · rcases List.mem_cons.mp ho with rfl | ho
+      · exact { labels := hp.labels, arity := hp.arity, inner_base := hp.inner_base }
+      · exact (hLpl o (by rw [hmap]; exact List.mem_append.mpr (Or.inr ho))).2
+  have := metrics_eq_spec_on_any_schedule g' hpl' hS'
+  simpa using this
+
+/-! ### the rewrites act on the specification's operation list -/
+
+/-- **`unwrap_nodes` = flatMap-unwrap on the operation list**: on any circuit satisfying DagInv with plain operations and any
+    schedule `L`, the call succeeds and all metrics of the result equal their specifications on the unwrapped operation list of `L` -/
+theorem metrics_after_unwrap_nodes {c : Dag} {P : Reg → List NodeId} {L : List (NodeId × Op)} (g : Good c P) (hpl : AllPlain c)
+    (hS : Sched c P L) : c.unwrapNodes.2 = none ∧ MetricsMeetSpec c.unwrapNodes.1 ((L.map (·.2)).flatMap Op.unwrap) := by
+  obtain ⟨he, P', L', g', hS', hpl', hL'⟩ := unwrapNodes_sched_gen g hpl hS
+  exact ⟨he, hL' ▸ metrics_eq_spec_on_any_schedule g' hpl' hS'⟩
+
+/-- **`remove_identity` = filter on the operation list** -/
+theorem metrics_after_remove_identity {c : Dag} {P : Reg → List NodeId} {L : List (NodeId × Op)} (g : Good c P) (hpl : AllPlain c)
+    (hS : Sched c P L) :
+    c.removeIdentity.2 = none ∧
+      MetricsMeetSpec c.removeIdentity.1 ((L.map (·.2)).filter (fun o => !decide (o.kind = .identity))) := by
+  obtain ⟨he, P', L', g', hS', hpl', hL'⟩ := removeIdentity_sched_gen g hpl hS
+  exact ⟨he, hL' ▸ metrics_eq_spec_on_any_schedule g' hpl' hS'⟩
+
+/-! ### the metrics are functions of the per-register operation sequences -/
+
+/-- a circuit satisfying DagInv has a node iff it has a register -/
+theorem nodes_nonempty_iff_register {c : Dag} {P : Reg → List NodeId} (g : Good c P) : c.nodeIds ≠ [] ↔ ∃ r, c.live r := by
+  constructor
+  · intro hne
+    obtain ⟨n, hn⟩ := List.exists_mem_of_ne_nil _ hne
+    cases n with
+    | inp r => exact ⟨r, (g.inv.inp_iff r).mp hn⟩
+    | out r => exact ⟨r, (g.inv.out_iff r).mp hn⟩
+    | op i =>
+      obtain ⟨o, ho⟩ := mem_nodeIds.mp hn
+      have hwf := g.inv.op_wf i o ho
+      cases hq : o.qregs with
+      | nil => exact absurd hq hwf.qregs_ne
+      | cons r t =>
+        have hr : r ∈ o.qregs := by rw [hq]; simp
+        have hm := (g.mem.mem_q i o ho r (hwf.qregs_quantum r hr)).mpr hr
+        refine ⟨r, ?_⟩
+        by_cases hl : c.live r
+        · exact hl
+        · rw [g.inv.dead r hl] at hm; simp at hm
+  · rintro ⟨r, hl⟩ h
+    have := (g.inv.inp_iff r).mpr hl
+    rw [h] at this; simp at this
+
+/-- **Wire determinacy.**  `wiredWire c P r` is the sequence of operations on the wire of register `r` (as wired, in wire order) —
+    what `reg_gate_history` shows, without node identities.  Two circuits that satisfy DagInv, hold plain operations, have the same
+    register counts and the same operation sequence on every wire admit schedules with the SAME operation list; so every
+    specification, hence every metric, takes the same value on both: the metrics are functions of the per-register operation
+    sequences and the register counts alone. -/
+theorem metrics_determined_by_wire_sequences {c c' : Dag} {P P' : Reg → List NodeId} (g : Good c P) (g' : Good c' P')
+    (hpl : AllPlain c) (hpl' : AllPlain c') (hregs : c'.regs = c.regs)
+    (hw : ∀ r, c.live r → wiredWire c' P' r = wiredWire c P r) :
+    ∃ ops, MetricsMeetSpec c ops ∧ MetricsMeetSpec c' ops := by
+  have hw' : ∀ r, wiredWire c' P' r = wiredWire c P r := by
+    intro r
+    by_cases hl : c.live r
+    · exact hw r hl
+    · have hl' : ¬ c'.live r := fun h => hl ((live_eq_of_regs hregs r).mp h)
+      unfold wiredWire
+      rw [g.inv.dead r hl, g'.inv.dead r hl']
+      rfl
+  obtain ⟨L, L', hS, hS', hmap⟩ := same_wiredWires_same_ops g g' hw'
+  refine ⟨L.map (·.2), metrics_eq_spec_on_any_schedule g hpl hS, ?_⟩
+  rw [← hmap]
+  exact metrics_eq_spec_on_any_schedule g' hpl' hS'
+
+/-- … spelled out: equal register counts and equal wire sequences give equal metric values -/
+theorem equal_wires_equal_metrics {c c' : Dag} {P P' : Reg → List NodeId} (g : Good c P) (g' : Good c' P')
+    (hpl : AllPlain c) (hpl' : AllPlain c') (hregs : c'.regs = c.regs)
+    (hw : ∀ r, c.live r → wiredWire c' P' r = wiredWire c P r) :
+    Metrics.cnotCount c' = Metrics.cnotCount c ∧ Metrics.measureCount c' = Metrics.measureCount c ∧
+    Metrics.unitaryCount c' = Metrics.unitaryCount c ∧ Metrics.circuitDepth c' = Metrics.circuitDepth c ∧
+    (∀ t, c'.calculateRegDepth t = c.calculateRegDepth t) ∧ Metrics.maxEmitDepth c' = Metrics.maxEmitDepth c ∧
+    Metrics.maxEmitResetDepth c' = Metrics.maxEmitResetDepth c ∧ Metrics.maxEmitEffDepth c' = Metrics.maxEmitEffDepth c := by
+  obtain ⟨ops, m, m'⟩ := metrics_determined_by_wire_sequences g g' hpl hpl' hregs hw
+  have hnE : c'.nE = c.nE := congrFun hregs .e
+  refine ⟨m'.cnot.trans m.cnot.symm, m'.measure.trans m.measure.symm, m'.unitary.trans m.unitary.symm, ?_, ?_,
+    ?_, ?_, ?_⟩
+  · by_cases hne : c.nodeIds ≠ []
+    · have hne' : c'.nodeIds ≠ [] := by
+        obtain ⟨r, hl⟩ := (nodes_nonempty_iff_register g).mp hne
+        exact (nodes_nonempty_iff_register g').mpr ⟨r, (live_eq_of_regs hregs r).mpr hl⟩
+      exact (m'.depth_model hne').trans (m.depth_model hne).symm
+    · have h0 : c.nodeIds = [] := by simpa using hne
+      have h0' : c'.nodeIds = [] := by
+        by_cases h : c'.nodeIds = []
+        · exact h
+        · obtain ⟨r, hl⟩ := (nodes_nonempty_iff_register g').mp h
+          exact absurd ((nodes_nonempty_iff_register g).mpr ⟨r, (live_eq_of_regs hregs r).mp hl⟩) hne
+      unfold Metrics.circuitDepth Dag.depth Dag.longestPathLen Dag.distTable
+      rw [h0, h0']
+      rfl
+  · intro t
+    rw [m'.register_depth t, m.register_depth t, hregs]
+  · rw [m'.max_emitter_depth, m.max_emitter_depth, hnE]
+  · rw [m'.reset_depth, m.reset_depth, hnE]
+  · rw [m'.effective_depth, m.effective_depth, hnE]
+
+/-- **metrics after `group_one_qubit_gates`**: the call does not raise, and its result has the metric values of ANY circuit
+    (satisfying DagInv, plain operations, same register counts) whose wires carry the fused sequences `fuseWire r (wire of r before)` —
+    so with `metrics_after_add … metrics_after_remove_identity` the effect of each of the eight edit kinds on every metric is a list
+    edit of the operation list / of the wire sequences -/
+theorem metrics_after_group {c c'' : Dag} {P P'' : Reg → List NodeId} (g : Good c P) (hh : GroupHyp c) (g'' : Good c'' P'')
+    (hpl'' : AllPlain c'') (hregs : c''.regs = c.regs) (hw : ∀ r, wiredWire c'' P'' r = fuseWire r (wiredWire c P r)) :
+    c.groupOneQubitGates.2 = none ∧
+    Metrics.cnotCount c'' = Metrics.cnotCount c.groupOneQubitGates.1 ∧
+    Metrics.measureCount c'' = Metrics.measureCount c.groupOneQubitGates.1 ∧
+    Metrics.unitaryCount c'' = Metrics.unitaryCount c.groupOneQubitGates.1 ∧
+    Metrics.circuitDepth c'' = Metrics.circuitDepth c.groupOneQubitGates.1 ∧
+    (∀ t, c''.calculateRegDepth t = c.groupOneQubitGates.1.calculateRegDepth t) ∧
+    Metrics.maxEmitDepth c'' = Metrics.maxEmitDepth c.groupOneQubitGates.1 ∧
+    Metrics.maxEmitResetDepth c'' = Metrics.maxEmitResetDepth c.groupOneQubitGates.1 ∧
+    Metrics.maxEmitEffDepth c'' = Metrics.maxEmitEffDepth c.groupOneQubitGates.1 := by
+  obtain ⟨e, P', g', hh', hr', hw'⟩ := groupOneQubitGates_wiredWire g hh
+  exact ⟨e, equal_wires_equal_metrics g' g'' hh'.plain hpl'' (hregs.trans hr'.symm) (fun r _ => (hw r).trans (hw' r).symm)⟩
+
+/-- **the wires of the prepared copy** `unwrap_nodes(); remove_identity()` (on which five of the metrics work): on any circuit
+    satisfying DagInv with graphiq-constructed operations both calls succeed and every wire of the copy carries the unwrapped,
+    identity-free sequence of the original wire — operations as wired (instance `[unwrap_nodes, remove_identity]` of
+    `C12.rewrite_history_on_wired_wires`) -/
+theorem prepared_copy_wires {c : Dag} {P : Reg → List NodeId} (g : Good c P) (hh : GroupHyp c) :
+    ∃ c' P', prep c = .ok c' ∧ Good c' P' ∧ c'.regs = c.regs ∧
+      ∀ r, wiredWire c' P' r = ((wiredWire c P r).flatMap Op.unwrap).filter (fun o => !decide (o.kind = .identity)) := by
+  obtain ⟨P', g', _, hr, hw⟩ := C12.rewrite_history_on_wired_wires [.unwrapNodes, .removeIdentity] g hh
+  obtain ⟨L, hS⟩ := sched_exists g
+  obtain ⟨c1, P1, L1, hprep, _, _, _, _, _⟩ := prep_sched_gen g hh.plain hS
+  have hc1 := prep_eq_ok hprep
+  refine ⟨c1, P', hprep, by rw [hc1]; exact g', by rw [hc1]; exact hr, fun r => by rw [hc1]; exact hw r⟩
+
+/-! ### the theorems for `add`-built circuits are the special case "schedule = creation order" -/
+
+/-- a circuit built by `add` has the schedule "nodes in creation order" whose operation list is `seq` itself — so §2–§5 are
+    instances of `metrics_eq_spec_on_any_schedule` -/
+theorem built_circuit_meets_spec (ne np nc : Nat) (seq : List Op) (hseq : PlainSeq seq)
+    (hok : (build ne np nc seq).2 = none) : MetricsMeetSpec (build ne np nc seq).1 seq := by
+  obtain ⟨P, L, g, hS, hL⟩ := build_sched ne np nc seq (fun op h => (hseq op h).1) hok
+  obtain ⟨hops, _⟩ := build_spec ne np nc seq (fun op h => (hseq op h).1) hok
+  have hpl : AllPlain (build ne np nc seq).1 := by
+    intro i o hm
+    have : o ∈ opsOf (build ne np nc seq).1 := mem_opsOf.mpr ⟨i, hm⟩
+    rw [hops] at this
+    exact (hseq o this).2
+  have := metrics_eq_spec_on_any_schedule g hpl hS
+  rwa [hL] at this
+
+/-! ## 7. every circuit reachable by an edit history -/
+
+open Graphiq.C12 in
+/-- **Metrics after any edit history.**  For every history `es` over the whole edit API — add, insert_at, remove_op,
+    replace_op, unwrap_nodes, remove_identity, group_one_qubit_gates, add_*_register, in any order, successful or raising —
+    applied to a fresh `CircuitDAG(ne, np, nc)`, with graphiq-constructed operation arguments (`HistOKg`): the circuit
+    reached satisfies DagInv, has a schedule, and on EVERY schedule `L` of it (in particular the operations in any
+    topological order) all metrics equal their specifications on `L.map snd`. -/
+theorem metrics_after_history (ne np nc : Nat) (es : List C12.Edit) (hok : C12.HistOKg (Dag.init ne np nc) es) :
+    ∃ P, Good (C12.run (Dag.init ne np nc) es) P ∧ (∃ L, Sched (C12.run (Dag.init ne np nc) es) P L) ∧
+      ∀ L, Sched (C12.run (Dag.init ne np nc) es) P L → MetricsMeetSpec (C12.run (Dag.init ne np nc) es) (L.map (·.2)) := by
+  obtain ⟨⟨P, g⟩, hh⟩ := C12.groupHyp_on_every_reachable_circuit ne np nc es hok
+  exact ⟨P, g, sched_exists g, fun L hS => metrics_eq_spec_on_any_schedule g hh.plain hS⟩
+
+/-- the same from ANY starting circuit that satisfies DagInv and holds graphiq-constructed operations (e.g. a circuit some other
+    history produced, or one imported from openQASM/JSON by a sequence of `add`s) -/
+theorem metrics_after_history_from {c : Dag} (h : DagInv c) (hh : GroupHyp c) (es : List C12.Edit) (hok : C12.HistOKg c es) :
+    MetricsMeetSpec (C12.run c es) (wireOpList (C12.run c es)) := by
+  obtain ⟨⟨P, g⟩, hh'⟩ := C12.history_groupHyp es h hh hok
+  exact metrics_eq_spec_of_wires g hh'.plain
+
+/-- **depth metrics after any history, whatever the user labels**: for every history of well-formed edits (`C12.HistOK`: no
+    assumption on labels or on how operations were constructed) from a fresh circuit, if no operation of the reached circuit is filed
+    under `Input`, then `register_depth` and `CircuitDepth` equal their specifications on every schedule of it -/
+theorem depth_after_history_with_user_labels (ne np nc : Nat) (es : List C12.Edit) (hok : C12.HistOK (Dag.init ne np nc) es)
+    (hk : NoInputKey (C12.run (Dag.init ne np nc) es)) :
+    ∃ P, Good (C12.run (Dag.init ne np nc) es) P ∧ (∃ L, Sched (C12.run (Dag.init ne np nc) es) P L) ∧
+      ∀ L, Sched (C12.run (Dag.init ne np nc) es) P L →
+        (∀ t, (C12.run (Dag.init ne np nc) es).calculateRegDepth t =
+          .ok ((List.range ((C12.run (Dag.init ne np nc) es).regs t)).map (fun i => (Spec.regDepth (L.map (·.2)) ⟨t, i⟩ : Int)))) ∧
+        ((C12.run (Dag.init ne np nc) es).nodeIds ≠ [] →
+          Metrics.circuitDepth (C12.run (Dag.init ne np nc) es) = (Spec.depth (L.map (·.2)) : Int)) := by
+  obtain ⟨P, g⟩ := C12.history_from_init ne np nc es hok
+  refine ⟨P, g, sched_exists g, fun L hS => ?_⟩
+  obtain ⟨h1, _, h3, _⟩ := depth_metrics_with_user_labels g hk hS
+  exact ⟨h1, h3⟩
+
+/-- **metrics after a history of node-addressed edits, wires computed by the list edits**: for a history of `add` / `insert_at` /
+    `remove_op` / `replace_op` on existing registers (`C12.NodeHistOK`), the wires of the reached circuit are `C12.wiresRun` — a
+    function of the wires before, `_node_id` and the edits (splice / erase / keep) — and every metric equals its specification on
+    every schedule of those wires -/
+theorem metrics_after_node_history {c : Dag} {P : Reg → List NodeId} (g : Good c P) (es : List C12.Edit)
+    (hok : C12.NodeHistOK c es) (hpl : AllPlain (C12.run c es)) :
+    Good (C12.run c es) (C12.wiresRun P c.nodeId es).1 ∧
+    ∀ L, Sched (C12.run c es) (C12.wiresRun P c.nodeId es).1 L → MetricsMeetSpec (C12.run c es) (L.map (·.2)) := by
+  obtain ⟨g', _⟩ := C12.node_history_wires es g hok
+  exact ⟨g', fun L hS => metrics_eq_spec_on_any_schedule g' hpl hS⟩
+
+/-- … in closed form: the metrics of the reached circuit are the specifications evaluated on `wireOpList` of it, a computable
+    function of the wires `reg_gate_history` returns and of the node operations -/
+theorem metrics_after_history_of_wires (ne np nc : Nat) (es : List C12.Edit) (hok : C12.HistOKg (Dag.init ne np nc) es) :
+    MetricsMeetSpec (C12.run (Dag.init ne np nc) es) (wireOpList (C12.run (Dag.init ne np nc) es)) := by
+  obtain ⟨⟨P, g⟩, hh⟩ := C12.groupHyp_on_every_reachable_circuit ne np nc es hok
+  exact metrics_eq_spec_of_wires g hh.plain
+
+/-- … and the wires `P` of the reached circuit are what `reg_gate_history` returns, register by register — the wires are
+    determined by the circuit (`C12.wires_are_determined`) and are obtained from those of the previous circuit by the list
+    edit of the edit applied (C12 §7: append / insert between / erase / keep / splice-in / filter / fuse) -/
+theorem metrics_after_history_wires (ne np nc : Nat) (es : List C12.Edit) (hok : C12.HistOKg (Dag.init ne np nc) es) :
+    ∃ P, Good (C12.run (Dag.init ne np nc) es) P ∧
+      ∀ r, r.idx < (C12.run (Dag.init ne np nc) es).regs r.ty → (C12.run (Dag.init ne np nc) es).regGateHistory r = .ok (P r) := by
+  obtain ⟨⟨P, g⟩, _⟩ := C12.groupHyp_on_every_reachable_circuit ne np nc es hok
+  exact ⟨P, g, fun r hl => regGateHistory_eq_wire g.inv hl⟩
+
+/-! ## 8. what the ASAP specification means: lengths of longest dependency chains
+
+  `Spec.depth` / `Spec.regDepth` / `Spec.layerOf` are computed by layering the operation list over shared registers.  They are the
+  definitional quantities of the property — "depth = length of the longest dependency chain" — by the theorems below, which speak of
+  the operation list only: a dependency chain (`Chain seq pre o k`) is a subsequence of `k` operations ending at the operation `o`
+  standing after the prefix `pre`, consecutive ones sharing a register. -/
+
+/-- the ASAP layer of an operation = the length of the longest dependency chain ending at it (attained, and an upper bound) -/
+theorem asap_layer_is_longest_chain {seq pre : List Op} {o : Op} {suf : List Op} (hseq : seq = pre ++ o :: suf) :
+    Chain seq pre o (Spec.layerOf (Spec.fronts pre) o) ∧ ∀ k, Chain seq pre o k → k ≤ Spec.layerOf (Spec.fronts pre) o :=
+  layer_is_longest_chain hseq
+
+/-- **`Spec.depth` = the length of the longest dependency chain of the operation list** -/
+theorem spec_depth_is_longest_chain (seq : List Op) :
+    (∀ pre o k, Chain seq pre o k → k ≤ Spec.depth seq) ∧ (seq ≠ [] → ∃ pre o, Chain seq pre o (Spec.depth seq)) :=
+  depth_is_longest_chain seq
+
+/-- **`Spec.regDepth seq r` = the length of the longest dependency chain ending at an operation on register `r`** (0 if none) -/
+theorem spec_reg_depth_is_longest_chain (seq : List Op) (r : Reg) :
+    (∀ pre o k, Chain seq pre o k → r ∈ opRegs o → k ≤ Spec.regDepth seq r) ∧
+    (Spec.regDepth seq r = 0 ∨ ∃ pre o, r ∈ opRegs o ∧ Chain seq pre o (Spec.regDepth seq r)) :=
+  regDepth_is_longest_chain seq r
+
+/-! ## 9. non-vacuity -/
 
 def cnotEE : Op := ⟨.cnot, [⟨.e, 0⟩, ⟨.e, 1⟩], [], ["two-qubit"], []⟩
 def hP0 : Op := Op.oneQubit .hadamard ⟨.p, 0⟩
@@ -331,5 +842,140 @@ example : ∃ (c : Dag) (P : Reg → List NodeId) (L : List (NodeId × Op)), Goo
     · exact oneQubit_wf rfl (by decide)
     · exact cnotEE_wf) (by decide)
   exact ⟨_, P, L, g, hS, by rw [← List.length_map (f := (·.2)), hL]; rfl⟩
+
+/-! ### a circuit reached by an edit history: add, insert_at (two edges, classical register left unthreaded), insert_at in
+    the middle of a wire, remove_op, unwrap_nodes -/
+
+def phE0 : Op := Op.oneQubit .phase ⟨.e, 0⟩
+
+/-- `CNOT e0→e1; H p0;` insert `MCR e1→p0 (c0)` before both outputs; `W[H,I,P] e1;` insert `P e0` before the CNOT; remove `H p0`;
+    unwrap -/
+def hist : List C12.Edit :=
+  [.add cnotEE, .add hP0,
+   .insertAt mcr [⟨.op 1, .out ⟨.e, 1⟩, ⟨.e, 1⟩⟩, ⟨.op 2, .out ⟨.p, 0⟩, ⟨.p, 0⟩⟩],
+   .add wrapE1,
+   .insertAt phE0 [⟨.inp ⟨.e, 0⟩, .op 1, ⟨.e, 0⟩⟩],
+   .removeOp 2,
+   .unwrapNodes]
+
+theorem gCnot : GraphiqOp cnotEE := ⟨cnotEE_wf, ⟨⟨by decide, by decide⟩, by decide⟩, fun h => absurd h (by decide)⟩
+theorem gMcr : GraphiqOp mcr := ⟨mcr_wf, ⟨⟨by decide, by decide⟩, by decide⟩, fun h => absurd h (by decide)⟩
+theorem gWrap : GraphiqOp wrapE1 := ⟨wrapE1_wf, ⟨⟨by decide, by decide⟩, by decide⟩, fun _ => ⟨⟨_, rfl⟩, rfl⟩⟩
+
+/-- the history satisfies the hypothesis of `metrics_after_history` (the two-edge insertion is on the two edges into output
+    nodes, which are sinks: no path from one edge's target to the other's source) -/
+theorem hist_ok : C12.HistOKg (Dag.init 2 1 1) hist := by
+  have gH : GraphiqOp hP0 := graphiqOp_oneQubit rfl (by decide)
+  have gP : GraphiqOp phE0 := graphiqOp_oneQubit rfl (by decide)
+  have h2 : DagInv (C12.run (Dag.init 2 1 1) [.add cnotEE, .add hP0]) :=
+    C12.history_from_init 2 1 1 _ ⟨cnotEE_wf, gH.wf, trivial⟩
+  obtain ⟨P2, g2⟩ := h2
+  refine ⟨gCnot, gH, ⟨gMcr, ⟨by decide, rfl, ?_⟩⟩, gWrap, ⟨gP, ⟨by decide, rfl, ?_⟩⟩, trivial, trivial, trivial⟩
+  · intro e1 he1 e2 he2 hne hr
+    simp only [List.mem_cons, List.not_mem_nil, or_false] at he1 he2
+    rcases he1 with rfl | rfl <;> rcases he2 with rfl | rfl
+    · exact hne rfl
+    · have := reflTransGen_of_sink (fun x => g2.inv.out_sink ⟨.e, 1⟩ x) hr
+      exact absurd this (by decide)
+    · have := reflTransGen_of_sink (fun x => g2.inv.out_sink ⟨.p, 0⟩ x) hr
+      exact absurd this (by decide)
+    · exact hne rfl
+  · intro e1 he1 e2 he2 hne
+    simp at he1 he2; subst he1 he2; exact absurd rfl hne
+
+/-- the hypotheses admit user labels: the time-reversed solver's measurement, labelled "Fixed" (`gate.add_labels("Fixed")`), is a
+    graphiq-constructed operation in the sense of the theorems -/
+def mcrFixed : Op := ⟨.mcr, [⟨.e, 1⟩, ⟨.p, 0⟩], [0], ["two-qubit", "Fixed"], []⟩
+
+example : GraphiqOp mcrFixed :=
+  ⟨{ not_input := by decide, not_output := by decide, qregs_ne := by decide, qregs_nodup := by decide,
+     cregs_nodup := by decide, qregs_quantum := by decide,
+     wrapper_shape := by intro h; exact absurd h (by decide),
+     wrapper_key := by intro h; exact absurd h (by decide) },
+   ⟨⟨by decide, by decide⟩, by decide⟩, fun h => absurd h (by decide)⟩
+
+/-- the circuit reached -/
+def histCircuit : Dag := C12.run (Dag.init 2 1 1) hist
+
+/-- the measure-and-reset as wired: `insert_at` did not thread it on `c0` -/
+def mcrWired : Op := ⟨.mcr, [⟨.e, 1⟩, ⟨.p, 0⟩], [], ["two-qubit"], []⟩
+
+/-- a topological order of the reached circuit, with the wired operations: node 5 (`P e0`, inserted before the CNOT), 1, 3, and
+    the nodes 6, 7, 8 created by unwrapping node 4 -/
+def histSchedule : List (NodeId × Op) :=
+  [(.op 5, phE0), (.op 1, cnotEE), (.op 3, mcrWired), (.op 6, Op.oneQubit .phase ⟨.e, 1⟩),
+   (.op 7, Op.oneQubit .identity ⟨.e, 1⟩), (.op 8, Op.oneQubit .hadamard ⟨.e, 1⟩)]
+
+/-- it is a schedule of the reached circuit (kernel-evaluated checker, sound by `schedB_sound`) … -/
+theorem histSchedule_is_schedule : ∃ P, Good histCircuit P ∧ Sched histCircuit P histSchedule :=
+  schedB_sound' (C12.groupHyp_on_every_reachable_circuit 2 1 1 hist hist_ok).1 (by decide)
+
+/-- it is the canonical schedule computed from the wires (kernel-evaluated) -/
+example : compSched histCircuit = histSchedule := by decide +kernel
+
+/-- … so by `metrics_after_history` all metrics of the reached circuit equal the specifications on its operation list -/
+example : MetricsMeetSpec histCircuit (histSchedule.map (·.2)) := by
+  obtain ⟨P, g, hS⟩ := histSchedule_is_schedule
+  obtain ⟨P', g', _, hall⟩ := metrics_after_history 2 1 1 hist hist_ok
+  have : P' = P := by funext r; exact g'.inv.paths_unique g.inv r
+  subst this
+  exact hall _ hS
+
+/-- both sides are proper values (kernel-evaluated): one emitter–emitter CNOT, one measurement, four counted unitaries (the
+    identity dropped), emitter depths 2 and 4 (e1: CNOT, MCR, P, H), reset interval 3, effective depth 3, register depths
+    e: 2, 6  p: 3  c: 0 (the measurement does not touch the wire of `c0`) -/
+example : Metrics.cnotCount histCircuit = 1 ∧ Spec.cnotCount (histSchedule.map (·.2)) = 1 ∧
+    Metrics.measureCount histCircuit = 1 ∧ Spec.measureCount (histSchedule.map (·.2)) = 1 ∧
+    (Metrics.unitaryCount histCircuit).toOption = some 4 ∧ Spec.unitaryCount (histSchedule.map (·.2)) = 4 := by decide
+example : (Metrics.maxEmitDepth histCircuit).toOption = some 4 ∧ (Spec.maxEmitDepth 2 (histSchedule.map (·.2))).toOption = some 4 ∧
+    (Metrics.maxEmitResetDepth histCircuit).toOption = some 3 ∧
+    (Spec.maxEmitResetDepth 2 (histSchedule.map (·.2))).toOption = some 3 := by decide
+example : (Metrics.maxEmitEffDepth histCircuit).toOption = some 3 ∧
+    (Spec.maxEmitEffDepth 2 (histSchedule.map (·.2))).toOption = some 3 := by decide
+example : Metrics.circuitDepth histCircuit = 6 := by decide
+example : histCircuit.registerDepth.toOption = some ([2, 6], [3], [0]) ∧
+    (List.range 2).map (fun i => Spec.regDepth (histSchedule.map (·.2)) ⟨.e, i⟩) = [2, 6] ∧
+    Spec.regDepth (histSchedule.map (·.2)) ⟨.c, 0⟩ = 0 ∧ Spec.depth (histSchedule.map (·.2)) = 6 := by decide
+
+/-- the hypothesis "at least one register" of the depth clauses is sharp: on `CircuitDAG(0, 0, 0)` networkx' longest path has 0
+    edges and the code returns `depth = −1`, whereas the longest dependency chain of the (empty) operation list has length 0
+    (the real `CircuitDepth().evaluate` returns −1 there as well; the correspondence harness accepts −1 on the empty graph) -/
+example : Metrics.circuitDepth (Dag.init 0 0 0) = -1 ∧ Spec.depth [] = 0 ∧ (Dag.init 0 0 0).nodeIds = [] := by decide
+
+/-- the depth theorems on a circuit with a user label: the time-reversed solver's first move on `CircuitDAG(1, 1, 1)` —
+    `insert_at(MeasurementCNOTandReset labelled "Fixed", [first edge of e0, first edge of p0])` — is a well-formed history, the circuit
+    reached satisfies `NoInputKey`, and both sides of the depth clause are 1 (kernel-evaluated) -/
+def mcrFixedE0 : Op := ⟨.mcr, [⟨.e, 0⟩, ⟨.p, 0⟩], [0], ["two-qubit", "Fixed"], []⟩
+
+def solverStep : List C12.Edit :=
+  [.insertAt mcrFixedE0 [⟨.inp ⟨.e, 0⟩, .out ⟨.e, 0⟩, ⟨.e, 0⟩⟩, ⟨.inp ⟨.p, 0⟩, .out ⟨.p, 0⟩, ⟨.p, 0⟩⟩]]
+
+example : C12.HistOK (Dag.init 1 1 1) solverStep ∧ NoInputKey (C12.run (Dag.init 1 1 1) solverStep) ∧
+    Metrics.circuitDepth (C12.run (Dag.init 1 1 1) solverStep) = 1 ∧ Spec.depth [quantumPart mcrFixedE0] = 1 ∧
+    (C12.run (Dag.init 1 1 1) solverStep).registerDepth.toOption = some ([1], [1], [0]) := by
+  refine ⟨⟨⟨?_, ?_⟩, trivial⟩, noInputKey_of_check (by decide), by decide, by decide, by decide⟩
+  · exact { not_input := by decide, not_output := by decide, qregs_ne := by decide, qregs_nodup := by decide,
+            cregs_nodup := by decide, qregs_quantum := by decide,
+            wrapper_shape := by intro h; exact absurd h (by decide),
+            wrapper_key := by intro h; exact absurd h (by decide) }
+  · exact C12.insert_at_input_edges_is_well_formed (C12.init_dagInv 1 1 1) (by decide) rfl
+      (by intro e he; simp at he; rcases he with rfl | rfl <;> exact ⟨_, rfl⟩)
+
+/-- wire determinacy, non-vacuity: `add(CNOT e0→e1); add(H p0)` and `add(H p0); add(CNOT e0→e1)` are different circuits (the node
+    identities are swapped) with the same register counts and the same operation sequence on every wire (kernel-evaluated on the
+    wires `reg_gate_history` returns) — the hypotheses of `equal_wires_equal_metrics` -/
+example : (build 2 1 0 [hP0, cnotEE]).1.nodes ≠ (build 2 1 0 [cnotEE, hP0]).1.nodes ∧
+    (build 2 1 0 [hP0, cnotEE]).1.regs = (build 2 1 0 [cnotEE, hP0]).1.regs ∧
+    ∀ r ∈ liveRegs (build 2 1 0 [cnotEE, hP0]).1,
+      wiredWire (build 2 1 0 [hP0, cnotEE]).1 (wireOf (build 2 1 0 [hP0, cnotEE]).1) r =
+        wiredWire (build 2 1 0 [cnotEE, hP0]).1 (wireOf (build 2 1 0 [cnotEE, hP0]).1) r := by
+  refine ⟨by decide, by funext t; cases t <;> rfl, by decide⟩
+
+/-- a chain of three operations in `seq2`: `CNOT e0→e1`, the wrapper on `e1`, the measurement on `e1, p0` -/
+example : Chain seq2 [cnotEE, wrapE1] mcr 3 :=
+  Chain.snoc (pre1 := [cnotEE]) (mid := []) (suf2 := [idP0, hP0, cnotEE])
+    (Chain.snoc (pre1 := []) (mid := []) (suf2 := [mcr, idP0, hP0, cnotEE]) (Chain.single (suf := [wrapE1, mcr, idP0, hP0, cnotEE]) rfl) rfl
+      ⟨⟨.e, 1⟩, by decide, by decide⟩)
+    rfl ⟨⟨.e, 1⟩, by decide, by decide⟩
 
 end Graphiq.C18
